@@ -71,9 +71,9 @@ def raised_finding(run, prop, rule, repo, entry_qual, scen, r):
                     {'scenario': scen, 'path': r.path}))
 
 
-def invariant_obligation(run, prop, rule, repo, sc, obj, entry_qual, scen, what='returned tensor train'):
+def invariant_obligation(run, prop, rule, repo, sc, obj, entry_qual, scen, what='returned tensor train', chain=True):
     from .l2 import chain_legs, tt_invariant
-    probs = tt_invariant(sc, obj, what) + chain_legs(obj, check_conj=sc.ctx.typed)
+    probs = tt_invariant(sc, obj, what) + (chain_legs(obj, check_conj=sc.ctx.typed) if chain else [])
     run.oblige(rule, (entry_qual, scen, 'invariant'), not probs)
     if probs:
         fn = repo.fn(entry_qual)
